@@ -2,6 +2,7 @@ package main
 
 import (
 	"go/token"
+	"go/types"
 	"sort"
 	"strings"
 
@@ -584,6 +585,7 @@ func rulePQInitial(c *Ctx, r *R) {
 		arg := nw.Call.Args[len(nw.Call.Args)-1]
 		// resolve through the cell of `initial` (reassigned) to a phi of appends rooted in initial[:0]
 		var roots []ssa.Value
+		paramMap := map[*ssa.Function]*ssa.Call{}
 		seen := map[ssa.Value]bool{}
 		appendGuarded := true
 		nApp := 0
@@ -618,6 +620,20 @@ func rulePQInitial(c *Ctx, r *R) {
 					walk(x.Call.Args[0])
 					return
 				}
+				// a helper of the package that does the filtering: analyse its results, mapping its parameters back
+				if cal := staticCallee(&x.Call); cal != nil && cal.Blocks != nil && cal.Pkg == fn.Pkg {
+					instrs(cal, func(b *ssa.BasicBlock, i int, in ssa.Instruction) {
+						if ret, ok := in.(*ssa.Return); ok {
+							for _, res := range ret.Results {
+								if _, isSlice := res.Type().Underlying().(*types.Slice); isSlice {
+									paramMap[cal] = x
+									walk(res)
+								}
+							}
+						}
+					})
+					return
+				}
 				roots = append(roots, v)
 			case *ssa.UnOp:
 				if cell := loadCell(x); cell != nil {
@@ -635,7 +651,21 @@ func rulePQInitial(c *Ctx, r *R) {
 		allSliced := len(roots) > 0
 		for _, rt := range roots {
 			sl, ok := rt.(*ssa.Slice)
-			if !ok || sl.High == nil || !isConstInt(sl.High, 0) || path(sl.X) != "initial" {
+			base := ""
+			if ok {
+				base = path(sl.X)
+				// inside a helper: map the sliced parameter back to the argument it was called with
+				if p, isP := sl.X.(*ssa.Parameter); isP {
+					if call := paramMap[p.Parent()]; call != nil {
+						for ai, fp := range p.Parent().Params {
+							if fp == p && ai < len(call.Call.Args) {
+								base = path(call.Call.Args[ai])
+							}
+						}
+					}
+				}
+			}
+			if !ok || sl.High == nil || !isConstInt(sl.High, 0) || base != "initial" {
 				allSliced = false
 				why = "the slice given to heap.New may be " + path(rt) + " (the raw, possibly duplicate-laden input)"
 			}
